@@ -11,6 +11,7 @@ def _meta(path):
         if isinstance(node, _ast.Assign) and any(getattr(t, "id", None) == "MANIFEST" for t in node.targets):
             return _ast.literal_eval(node.value)
     return {}
+claimed = set(open(os.path.join(V, "tools", "claimed.txt")).read().split())
 na_reasons = json.load(open(os.path.join(V, "tools", "na_reasons.json")))
 checks, na = [], []
 for p in props:
@@ -19,7 +20,7 @@ for p in props:
     m = _meta(path) if os.path.exists(path) else {}
     if pid in na_reasons:
         m = {"na_reason": na_reasons[pid]}
-    if os.path.exists(path) and "text" in m:
+    if os.path.exists(path) and "text" in m and pid in claimed:
         src = open(path).read()
         level = re.search(r'^LEVEL\s*=\s*"(\w+)"', src, re.M).group(1)
         checks.append({
